@@ -593,6 +593,20 @@ func check(id, tier string, seed uint64, cases int, budget float64, workers int)
 		"extra":       extra,
 		"harness_trouble": trouble,
 	}
+	if id == "C08" {
+		cov["race_oracle"] = map[string]any{
+			"runs_on_race_build":              raceRuns,
+			"reports_attributed_to_yaegi":     faults["race-report-yaegi"],
+			"reports_harness_internal":        faults["race-report-harness-internal"],
+			"reports_unattributed":            faults["race-report-unattributed"],
+			"worker_process_crashes":          faults["worker-process-crash"],
+			"note":                            "harness-internal and unattributed reports must be 0; if not, the run is harness trouble (exit 2), never a violation",
+		}
+		if n := faults["race-report-harness-internal"] + faults["race-report-unattributed"]; n > 0 {
+			trouble = append(trouble, fmt.Sprintf("%d race reports involve the harness or cannot be attributed: the race oracle cannot be trusted for this run", n))
+			cov["harness_trouble"] = trouble
+		}
+	}
 	ev["coverage"] = cov
 	os.MkdirAll(filepath.Join(outDir, "evidence"), 0o755)
 	eb, _ := json.MarshalIndent(ev, "", " ")
